@@ -16,6 +16,7 @@ package main
 import (
 	"bufio"
 	"context"
+	"errors"
 	"fmt"
 	"os"
 	"runtime"
@@ -323,7 +324,15 @@ type seqEnv struct {
 	sctx     []int
 	nextTag  int
 	wantSelf int64
+	// alias probe: the slice Errors() handed out last, per scope, and how many calls on that scope it has
+	// survived.  A caller may do `errs = append(scope.Errors(), mine)` at any later time; that must never
+	// change what the scope itself holds (the accessor hands out a copy).
+	kept    map[int][]error
+	keptAge map[int]int
 }
+
+// errCallerOwned is what the harness appends to a list it was handed out; it must never show up in a scope.
+var errCallerOwned = errors.New("caller-owned error appended to a handed-out list")
 
 func newSeqEnv(kinds string) *seqEnv {
 	e := &seqEnv{}
@@ -404,6 +413,17 @@ func (e *seqEnv) op(tok string) string {
 			return "disabled"
 		}
 		c := e.sctx[sid]
+		if k, ok := e.kept[sid]; ok {
+			if e.keptAge[sid] >= 1 { // at least one other call on the scope lies in between
+				_ = append(k, errCallerOwned)
+				for i := range k {
+					k[i] = errCallerOwned
+				}
+				delete(e.kept, sid)
+			} else {
+				e.keptAge[sid]++
+			}
+		}
 		was := e.ctxs[c].IsDone()
 		var res string
 		if p, _ := hx.Guard(func() { res = f(sid) }); p {
@@ -426,6 +446,12 @@ func (e *seqEnv) op(tok string) string {
 	case 'e':
 		return withScope(rest, func(sid int) string {
 			errs := e.scopes[sid].Errors()
+			if e.kept == nil {
+				e.kept, e.keptAge = map[int][]error{}, map[int]int{}
+			}
+			if _, held := e.kept[sid]; !held {
+				e.kept[sid], e.keptAge[sid] = errs, 0
+			}
 			t, c, f := countErrs(errs)
 			if f != 0 || (e.scopes[sid].Err() != nil) != (len(errs) > 0) ||
 				(e.ctxs[e.sctx[sid]].Err() != nil) != (len(errs) > 0) {
